@@ -157,7 +157,8 @@ theorem lexsort_to_indices_sorted_prefix (sortBy : PartialSorter) (hs : SortCont
 theorems are not vacuous. -/
 theorem sort_contract_satisfiable : SortContract mergeSorter := mergeSorter_contract
 
-example : sortToIndices mergeSorter (fun x y : Int => compare x y) ⟨true, false⟩
+/-- the model on a concrete column (descending, nulls last, limit 4), with the driver's sorter -/
+example : sortToIndices insSorter (fun x y : Int => compare x y) ⟨true, false⟩
     [some 5, none, some 1, some 5, none, some (-2)] (some 4) = [0, 3, 2, 5] := by decide
 
 /-! ## (5) partition (rank: see `props/C10.json`, tested against `rankSpec` only) -/
